@@ -102,7 +102,7 @@ var specs = map[string]*spec{
 		Probes: []string{"snapshot-installed", "log-discarded", "log-compacted", "partial-snapshot-discarded", "installsnapshot-second-chunk"}},
 	"C14": {ID: "C14", Profiles: []string{"crashsweep"}, Engine: "cluster", Accept: []string{"C14"}, Level: "exploration",
 		Rule: "one run = one seeded cluster simulation with snapshots on and crashes immediately before/after/inside the k-th storage operation of a node. Non-trivial: >= 1 crash at a storage operation followed by a restart. Distinct: distinct event-log hashes among those."},
-	"C15": {ID: "C15", Profiles: []string{"liveness", "core", "membership", "reads"}, Engine: "cluster", Accept: []string{"C15"}, Level: "exploration",
+	"C15": {ID: "C15", Profiles: []string{"liveness", "core", "membership", "reads", "election", "crashsweep", "liveness", "election"}, Engine: "cluster", Accept: []string{"C15"}, Level: "exploration",
 		Rule: "one run = one seeded faulty cluster simulation followed by a fault-free phase of 60 election timeouts. Non-trivial: >= 1 fault fired before the heal phase. Distinct: distinct event-log hashes among those.",
 		Probes: []string{"heal-converged", "heal-restarted-bare-majority"}},
 }
